@@ -78,6 +78,43 @@ type seParams struct {
 	// Bus: commits are delivered by publishing event.Merge on the receiver's bus (the path the network
 	// layer uses: message handler, merge queue, retry loop) instead of the synchronous hook H1
 	Bus bool `json:"bus,omitempty"`
+	// Pad: number of further collections added (in a second AddSchema call) before the history starts.
+	// They hold no documents; they declare fields with the names the history uses, in another order,
+	// so that every per-collection identifier that is keyed by a number or a name exists several
+	// times in the store (collections 10.. next to collection 1, field "name" with different ids).
+	Pad int `json:"pad,omitempty"`
+	// PadLate: the collections are not added before the history but by an operation {k: "pad"} inside it
+	// (documents already exist when the store gets its 10th.. collection)
+	PadLate bool `json:"pad_late,omitempty"`
+}
+
+// sePadSDL: n collections Pad0..Pad<n-1> declaring the field names of the base collections, of the
+// generator's patch pool and of the anchors, rotated, behind a leading extra field.
+func sePadSDL(n int) string {
+	// (some names of the history are left out on purpose: identifiers of the padding collections must
+	// not form a consistent substitute for those of the collections under test)
+	names := []string{"email", "hits", "rating", "stars"}
+	for _, fs := range seBase {
+		for _, f := range fs {
+			if f.Name != "pts" && f.Name != "pages" && f.Name != "seen" {
+				names = append(names, f.Name)
+			}
+		}
+	}
+	for c := 0; c < 3; c++ {
+		for k := 1; k <= 6; k += 2 {
+			names = append(names, fmt.Sprintf("f%d%c", k, 'a'+c))
+		}
+	}
+	var sb strings.Builder
+	for i := 0; i < n; i++ {
+		fmt.Fprintf(&sb, "type Pad%d {\n aaa%d: Int\n", i, i)
+		for k := range names {
+			fmt.Fprintf(&sb, " %s: Int\n", names[(k+3*i+1)%len(names)])
+		}
+		sb.WriteString("}\n")
+	}
+	return sb.String()
 }
 
 var seColNames = []string{"User", "Book", "Note"}
@@ -512,9 +549,25 @@ func seKindOf(p seParams) string {
 	return "evolve"
 }
 
-func seAnchors() []core.Case {
-	var cs []core.Case
-	add := func(p seParams) { cs = append(cs, core.MkCase("anchor/"+seKindOf(p), 1, p)) }
+func seAnchors() (cs []core.Case) {
+	var all []seParams
+	add := func(p seParams) { all = append(all, p); cs = append(cs, core.MkCase("anchor/"+seKindOf(p), 1, p)) }
+	defer func() {
+		// the first one-node and the first two-node anchor once more among more than ten collections
+		seen := map[int]bool{}
+		for _, p := range all {
+			if !seen[p.Nodes] {
+				seen[p.Nodes] = true
+				p.Pad = 12
+				cs = append(cs, core.MkCase("anchor/"+seKindOf(p)+"/padded", 1, p))
+				q := p
+				q.PadLate = true
+				at := len(p.Script) / 2
+				q.Script = append(append(append([]seOp{}, p.Script[:at]...), seOp{Kind: "pad"}), p.Script[at:]...)
+				cs = append(cs, core.MkCase("anchor/"+seKindOf(q)+"/padded-late", 1, q))
+			}
+		}
+	}()
 	email := &seField{Name: "email", Kind: "String"}
 	score := &seField{Name: "score", Kind: "Float"}
 	hits := &seField{Name: "hits", Kind: "Int", Typ: 4}
@@ -706,6 +759,15 @@ func seCases(seed uint64, tier string) []core.Case {
 			p = seGenTwoNode(rng)
 			p.Bus = i%2 == 0
 		}
+		if i%5 == 2 {
+			p.Pad = 12
+			if i%10 == 2 && len(p.Script) > 4 {
+				// the collections arrive in the middle of the history
+				p.PadLate = true
+				at := len(p.Script) / 2
+				p.Script = append(p.Script[:at:at], append([]seOp{{Kind: "pad"}}, p.Script[at:]...)...)
+			}
+		}
 		cs = append(cs, core.MkCase(seKindOf(p), rng.Uint64(), p))
 	}
 	return cs
@@ -815,6 +877,10 @@ func runSchemaEvolution(ctx context.Context, c core.Case, r *core.Rec) {
 		defer n.Close()
 		_, err := n.DB.AddSchema(ctx, seSDL(p))
 		core.Must(err)
+		if p.Pad > 0 && !p.PadLate {
+			_, err = n.DB.AddSchema(ctx, sePadSDL(p.Pad))
+			core.Must(err)
+		}
 		sn := &seNode{n: n, commits: map[int]map[string]string{}, known: map[int]bool{}, tainted: map[string]bool{}, foreign: map[int]map[string]bool{}, stale: map[int]bool{}}
 		for c := 0; c < p.Cols; c++ {
 			sn.vers = append(sn.vers, nil)
@@ -845,6 +911,9 @@ func runSchemaEvolution(ctx context.Context, c core.Case, r *core.Rec) {
 		t.agreement()
 	}
 	r.Count("histories", 1)
+	if p.Pad > 0 {
+		r.Count("histories_with_more_than_ten_collections", 1)
+	}
 	if p.Nodes == 2 {
 		r.Count("two_node_histories", 1)
 	}
@@ -1288,6 +1357,22 @@ func (t *seRun) step(i int, op seOp) {
 	name := seColNames[op.Col]
 	nonLatest := func() bool { return sn.active[op.Col] != len(sn.vers[op.Col])-1 }
 	switch op.Kind {
+	case "pad":
+		// further collections are added on every node; nothing about the existing ones may change
+		for ni, n := range t.nodes {
+			_, err := n.n.DB.AddSchema(t.ctx, sePadSDL(t.p.Pad))
+			core.Must(err)
+			t.logf("#%d pad n%d: %d collections added", i, ni, t.p.Pad)
+			for c := 0; c < t.p.Cols; c++ {
+				if _, ok := t.dump(ni, c, "pad"); !ok {
+					return
+				}
+			}
+			t.checkCommits(ni, "pad", false)
+		}
+		t.checkModel("pad")
+		t.r.Count("collections_added_in_mid_history", 1)
+		return
 	case "patch":
 		parts := op.parts()
 		if len(parts) == 0 {
@@ -1732,7 +1817,7 @@ func init() {
 		Run:   runSchemaEvolution,
 		Floors: []string{"dumps", "patches", "patches_not_default", "switches", "switches_to_root", "writes_under_nonlatest_version", "before_after_comparisons", "commit_lists_compared", "two_node_histories", "merge_with_field_unknown_to_receiver", "merges_between_different_versions", "agreement_checks_between_different_versions", "common_fields_compared", "index_queries", "nontrivial_histories",
 			"patches_touching_several_collections", "multi_patches_set_default", "multi_patches_not_default", "multi_patches_on_nonlatest_version", "multi_patches_three_collections",
-			"multi_patches_two_fields_in_one_collection", "multi_patches_two_node", "multi_patches_with_documents_in_every_patched_collection", "writes_after_multi_patch_made_default", "agreement_checks_after_multi_patch", "merges_through_the_event_bus"},
+			"multi_patches_two_fields_in_one_collection", "multi_patches_two_node", "multi_patches_with_documents_in_every_patched_collection", "writes_after_multi_patch_made_default", "agreement_checks_after_multi_patch", "merges_through_the_event_bus", "histories_with_more_than_ten_collections", "collections_added_in_mid_history"},
 		CaseTimeout: 10 * time.Minute,
 		Assumptions: []string{
 			"PatchSchema cannot declare a default value for an added field (SchemaFieldDescription has Name/Kind/Typ only, unknown properties are rejected): added fields are expected to read null for documents that never wrote them; a default declared in the SDL (tag) is modelled from the client document",
